@@ -119,3 +119,20 @@ def reform2d(arr, k):
     ro = arr.copy()
     ro.setflags(write=False)
     return name, ro
+
+
+def omit_defaults(kw, defaults, salt=0, none_ok=()):
+    """The same call with some of the arguments that equal their documented default left out (or, for the
+    names in none_ok, passed as None, where the documentation says None means the default).  Deterministic in
+    salt, so that a replay makes the same call."""
+    out = {}
+    for i, (k, v) in enumerate(sorted(kw.items())):
+        if k in defaults and v == defaults[k] and not (isinstance(v, bool) ^ isinstance(defaults[k], bool)):
+            r = (salt + i) % 3
+            if r == 1:
+                continue
+            if r == 2 and k in none_ok:
+                out[k] = None
+                continue
+        out[k] = v
+    return out
